@@ -124,16 +124,16 @@ def writer_effects():
     E = {}
     for e in ("be", "le"):
         E["writer.%s.write_bits" % e] = Effect(None, lambda num, p, w: [
-            ("returns n_bits", eq(num.aff(ok_value(p)), num.aff(("arg", 3, "n_bits")))),
-            ("stream grows by exactly n_bits", eq(writer_out(num, p, w), writer_out(num, p, w, entry=True) + num.aff(("arg", 3, "n_bits"))))],
+            ("returns n_bits", eq(num.aff(ok_value(p)), num.aff(("arg", 3, "arg3")))),
+            ("stream grows by exactly n_bits", eq(writer_out(num, p, w), writer_out(num, p, w, entry=True) + num.aff(("arg", 3, "arg3"))))],
             "write_bits(v, n): Ok(x) => x = n and out' = out + n")
         E["writer.%s.write_unary" % e] = Effect(None, lambda num, p, w: [
-            ("returns value + 1", eq(num.aff(ok_value(p)), num.aff(("arg", 2, "value")) + const(1))),
-            ("stream grows by exactly value + 1", eq(writer_out(num, p, w), writer_out(num, p, w, entry=True) + num.aff(("arg", 2, "value")) + const(1)))],
+            ("returns value + 1", eq(num.aff(ok_value(p)), num.aff(("arg", 2, "arg2")) + const(1))),
+            ("stream grows by exactly value + 1", eq(writer_out(num, p, w), writer_out(num, p, w, entry=True) + num.aff(("arg", 2, "arg2")) + const(1)))],
             "write_unary(v): Ok(x) => x = v + 1 and out' = out + v + 1")
         E["writer.%s.copy_from" % e] = Effect(None, lambda num, p, w: [
-            ("destination grows by exactly n", eq(writer_out(num, p, w), writer_out(num, p, w, entry=True) + num.aff(("arg", 3, "n")))),
-            ("source advances by exactly n", eq(mem_aff(num, p, g_adv(("arg", 2, "bit_read"))), num.aff(g_adv(("arg", 2, "bit_read"))) + num.aff(("arg", 3, "n"))))],
+            ("destination grows by exactly n", eq(writer_out(num, p, w), writer_out(num, p, w, entry=True) + num.aff(("arg", 3, "arg3")))),
+            ("source advances by exactly n", eq(mem_aff(num, p, g_adv(("arg", 2, "arg2"))), num.aff(g_adv(("arg", 2, "arg2"))) + num.aff(("arg", 3, "arg3"))))],
             "copy_from(r, n): out' = out + n and r advances by n")
     for e in ("be", "le"):
         def goals(num, p, w, bw=SELF):
@@ -151,7 +151,7 @@ def writer_effects():
 
 def reader_effects():
     E = {}
-    n2 = lambda nm: ("arg", 2, nm)
+    n2 = lambda nm: ("arg", 2, "arg2")
     for e in ("be", "le"):
         k = "reader.%s." % e
         E[k + "read_bits"] = Effect(None, lambda num, p, w: [("advances by exactly n_bits", eq(reader_pos(num, p, w), reader_pos(num, p, w, True) + num.aff(n2("n_bits"))))],
@@ -165,8 +165,8 @@ def reader_effects():
         E[k + "read_unary"] = Effect(None, lambda num, p, w: [("advances by result + 1", eq(reader_pos(num, p, w), reader_pos(num, p, w, True) + num.aff(ok_value(p)) + const(1)))],
                                      "read_unary(): Ok(r) => pos' = pos + r + 1")
         E[k + "copy_to"] = Effect(None, lambda num, p, w: [
-            ("source advances by exactly n", eq(reader_pos(num, p, w), reader_pos(num, p, w, True) + num.aff(("arg", 3, "n")))),
-            ("destination receives exactly n bits", eq(mem_aff(num, p, g_adv(("arg", 2, "bit_write"))), num.aff(g_adv(("arg", 2, "bit_write"))) + num.aff(("arg", 3, "n"))))],
+            ("source advances by exactly n", eq(reader_pos(num, p, w), reader_pos(num, p, w, True) + num.aff(("arg", 3, "arg3")))),
+            ("destination receives exactly n bits", eq(mem_aff(num, p, g_adv(("arg", 2, "arg2"))), num.aff(g_adv(("arg", 2, "arg2"))) + num.aff(("arg", 3, "arg3"))))],
             "copy_to(w, n): pos' = pos + n and w receives n bits")
         E[k + "bit_pos"] = Effect(None, lambda num, p, w: [("returns the position", eq(num.aff(ok_value(p)), reader_pos(num, p, w, True))),
                                                             ("does not move", eq(reader_pos(num, p, w), reader_pos(num, p, w, True)))],
